@@ -75,7 +75,7 @@ so a dropped call / case / overload is a violated instance, not a vanished one.
 Not decided: behaviour of the DiffIterator on all run-length patterns; evaluation order inside user handlers; that
 ChainHandler / DynamicHandler forward only node/way/relation/area/changeset/flush (osm_object and the sub-item callbacks of
 chained or dynamic sub-handlers are never called -- by construction of those classes, reported as an observation only);
-make_handler's SFINAE selection (a wrong selection does not compile); that update_buffer skips empty buffers.  Observation (compile time, no rule): apply_diff(Buffer&) / apply_diff(const Buffer&)
+make_handler's SFINAE selection (a wrong selection does not compile).  Observation (compile time, no rule): apply_diff(Buffer&) / apply_diff(const Buffer&)
 cannot be instantiated (Buffer::begin() iterates OSMEntity, DiffIterator static_asserts OSMObject).
 """
 from ..c20_util import (Oracle, Shape, split_ref, strip_const, expected_calls, xroot, has_explicit_cast, name_of, enum_paths,
@@ -1962,6 +1962,57 @@ def inputiterator_rules(fb, R, O):
                         msgs.append('a path resets %s but leaves update_buffer without resetting %s' % (f, f2))
         msgs = sorted(set(msgs))
         R.check(not msgs, 'R1-inputiterator-end-state', INIT + '::update_buffer#end-of-input', fn.site, '; '.join(msgs))
+    # R3: once the item iterator has been positioned at select<TItem>().begin() of a new buffer, the function may only be
+    # left normally on the `iterator != select<TItem>().end()` outcome of a comparison (buffers without an item of the
+    # requested type are skipped); any other way out goes through the end-of-input reset or another read.
+    for fn in ups:
+        itfs = set()
+        begins = []
+        for (n, rhs) in [(n, r) for f in sorted(compared.get(fn.clsT) or set().union(*compared.values())) for (n, r) in _field_assigns(fn, f)]:
+            x = fn.sn(rhs)
+            hops = 0
+            while x is not None and x.get('k') == 'construct' and len(x.get('args', [])) == 1 and hops < 4:
+                x = fn.sn(x['args'][0])
+                hops += 1
+            if x is not None and x.get('k') == 'call' and name_of(x.get('q', '')) in ('begin', 'cbegin'):
+                begins.append(n['id'])
+                l = n.get('lhs', n.get('recv'))
+                itfs.add(_this_field(fn, l))
+        if not begins or len(itfs) != 1:
+            R.broken('%s: the positioning `iter = buffer.select<T>().begin()` was not found' % fn.full)
+            continue
+        itf = itfs.pop()
+        resets_it = carriers(fb, fn, lambda g, n, f=itf: _is_default_reset(g, n, f))
+
+        def edge_ok(b, idx, s_, fn=fn, itf=itf):
+            blk = fn.blocks[b]
+            if 'cond' in blk and len(blk['succs']) == 2:
+                neg = False
+                c = blk['cond']
+                x = fn.sn(c)
+                while x is not None and x.get('k') == 'unop' and x.get('op') == '!':
+                    neg = not neg
+                    c = x['sub']
+                    x = fn.sn(c)
+                p = _cmp_parts(fn, c)
+                if p is not None:
+                    sides = [fn.sn(p[1]), fn.sn(p[2])]
+                    flds = [_this_field(fn, p[1]), _this_field(fn, p[2])]
+                    if itf in flds:
+                        other = sides[1 - flds.index(itf)]
+                        if other is not None and other.get('k') == 'call' and name_of(other.get('q', '')) in ('end', 'cend'):
+                            equal_edge = 0 if ((p[0] == '==') != neg) else 1
+                            return idx == equal_edge      # the not-equal outcome discharges the obligation
+            return True
+        bad = None
+        for bg in begins:
+            w = normal_exit_avoiding(fn, bg, set(begins) | set(resets_it), edge_ok=edge_ok)
+            if w is not None:
+                bad = bg
+                break
+        R.check(bad is None, 'R3-inputiterator-skips-buffers-without-match', INIT + '::update_buffer#leaves-only-on-item', fn.site,
+                'after positioning %s at the beginning of a new buffer the function can return although %s equals the buffer\'s '
+                'end() (a buffer without an item of the requested type is not skipped; the iterator is then dereferenced at end)' % (itf, itf))
     for fn in incs:
         ups_c = [n for n in fn.all_nodes() if n.get('k') == 'call' and n.get('q') == INIT + '::update_buffer']
         adv = _increments_of(fn, lambda x: (xroot(fn, x, free_calls=False) or (None,))[0] == 'field')
@@ -2321,6 +2372,7 @@ def run(ctx):
     R.expect('C2-chain-step-calls-nth-then-next', 6)
     R.expect('R1-inputiterator-end-state', 1)
     R.expect('R1-inputiterator-refill', 1)
+    R.expect('R3-inputiterator-skips-buffers-without-match', 1)
     R.expect('K1-compat-set-equals-class-hierarchy', 14)  # Item, OSMEntity, OSMObject, 5 entities, 3 node-ref lists, RelationMemberList,
                                                             # Collection<Tag>, Collection<ChangesetComment> (Collection<RelationMember>'s is hidden, never used)
     R.expect('R2-inputiterator-fresh-buffer-per-read', 2)   # no write through the shared pointer; fresh buffer after read()
